@@ -18,6 +18,7 @@ def run(ctx):
                         'TLC 1.8, CPython 3.12, harness/bql.py + selectq.py (projection)']
     selectcheck.run_mc_and_replay(ctx, 'order', 3, 4, 4, 6, nonvac=('limitfirst', ('PhaseOrderLaw', 'DistinctLaw')))
     selectcheck.record_and_validate(ctx, 'order', ctx.pick(1500, 20000), 30)
+    selectcheck.typed_tables_leg(ctx, 'order', ctx.pick(120, 1500))
     ctx.exhaustive = False
 
 
